@@ -34,8 +34,13 @@ RULE = ("case = (m npre npost (l0 l1 .. ln)): a real tachys keyed(..) view whose
         "Either | EitherOf3 | array | StaticVec | Result | EitherKeepAlive (texts being String, &str, Arc<str>, Cow<str> or i64; "
         "every child position type-erased), 60% of the shapes being or starting "
         "with a (mostly non-empty) inner list, so that every Mountable::insert_before_this of tachys/src/view is the "
-        "'next mounted sibling' of apply_diff, histories of 2-6 lists. Non-trivial = at least one update changes the "
-        "key sequence; distinct = distinct case hash.")
+        "'next mounted sibling' of apply_diff, histories of 2-6 lists; mode 4: keyed(items, |k| format!(..) String keys, "
+        "..).add_any_attr(class(..)) with <span> rows (every row must carry the class); mode 5: the list between 0/1 "
+        "element siblings rendered with to_html, parsed into the parent, HYDRATED and then rebuilt. In every tachys mode "
+        "(1-5, 20) one history in four also unmounts the list and mounts it again between updates (step (-1)), and every "
+        "case ends with unmount (exactly the siblings are left). Mode 14 also runs on an ArcStore, iterating backwards "
+        "(DoubleEndedIterator::next_back) and over a keyed field of the root struct. Non-trivial = at least one update "
+        "changes the key sequence; distinct = distinct case hash.")
 TRUSTED = [
     "Coq 8.16.1 kernel (coqc); every theorem of Properties_C11.v is 'Closed under the global context'",
     "extraction to OCaml with ExtrOcamlBasic only, ocamlfind ocamlopt, extract/driver.ml sexp I/O",
@@ -65,6 +70,10 @@ TRUSTED = [
     "model answers what mode 11 answers (order = the new key order by Keyed.v, label shown = entries since the row was "
     "built), so that the key map of the store is fresh whenever <For> and the rows resolve their keys is COMPARED and "
     "checked by the oracle, not proved: the Coq model has no store",
+    "unmount + mount again (step (-1)) and the final unmount are modelled in Dom/KeyedRun.v (`remount`, `Keyed.unmount`) "
+    "and COMPARED, but the invariant st_wf after a re-mount is not a theorem; modes 4 (add_any_attr) and 5 (hydrated "
+    "KeyedState) are compared with the model of a one-node list whose log has only the view_fn / set_index calls: that "
+    "the boxed view_fn of AddAnyAttr and the state made by hydration behave like the built one is compared, not proved",
     "modelled, not verified: indexmap::IndexSet (as a duplicate-free list: get_index, get_full, contains), Vec "
     "(push, take, resize_with, drain_filter), the item views' own mount / unmount / insert_before_this (each node in "
     "order before the anchor; first mounted node is the anchor) — transcribed in Dom/Keyed.v and compared with the "
@@ -413,6 +422,9 @@ def check_step(js_of, npre, npost, frm, to, before, old_gen, children, log, plai
     for e in log:
         if e[0] == 3:
             builds.setdefault(e[1], []).append(e[2])
+            # a new item is told its index when it is built (view_fn(index, item); <ForEnumerate>'s index signal starts there)
+            if e[1] in to and e[1] not in old_gen and e[3] != to.index(e[1]):
+                return "new key %d at index %d was built with index %d" % (e[1], to.index(e[1]), e[3]), None
     pos = 0
     for idx, k in enumerate(to):
         js = js_of(k)
@@ -679,7 +691,9 @@ def describe(item):
                "group().update(..)"]
         bump = ["the row's AtKeyed handle", "rows().write()", "store.write()"]
         ops = (item["case"][4] + [0] * len(ls))[:len(ls)]
-        return ("leptos <For each=store.group().rows()> over a keyed store field, rows showing their item's label, %d leading / "
+        store = ["Store", "ArcStore", "Store, iterated backwards (.into_iter().rev())", "Store whose ROOT struct has the keyed field"][
+            ops[0] % 10 if ops and ops[0] % 10 < 4 else 0]
+        return ("leptos <For each=store.group().rows()> over a keyed store field (" + store + "), rows showing their item's label, %d leading / "
                 "%d following siblings: %s; labels incremented after each step through %s" % (
                     npre, npost, str(ls[0]) + "".join(" -[%s]-> %s" % (via[o % 10], l) for o, l in zip(ops[1:], ls[1:])),
                     ", ".join(bump[o // 10] for o in ops)))
